@@ -230,8 +230,12 @@ impl Gen {
             1 => { let f = self.formula(d); Self::bin(if self.rng.chance(1,2) {Conjunction} else {Disjunction}, f.clone(), f) }
             2 => { let f = self.formula(d); Self::bin(Implication, f.clone(), f) }
             3 => {
+                // two implication-like conjuncts over the same operands, every mix of -> and <- and operand order
                 let f = self.formula(d); let g = self.formula(d);
-                Self::bin(Conjunction, Self::bin(Implication, f.clone(), g.clone()), Self::bin(Implication, g, f))
+                let c1 = if self.rng.chance(3, 4) { Implication } else { ReverseImplication };
+                let c2 = if self.rng.chance(3, 4) { Implication } else { ReverseImplication };
+                let (a, b) = if self.rng.chance(3, 4) { (g.clone(), f.clone()) } else { (f.clone(), g.clone()) };
+                Self::bin(Conjunction, Self::bin(c1, f, g), Self::bin(c2, a, b))
             }
             4 => {
                 let q = if self.rng.chance(1,2) {Forall} else {Exists};
